@@ -24,14 +24,14 @@ import (
 const maxDepth = 32
 
 type rctx struct {
-	e      *Eng
-	fn     *ssa.Function // function from whose point of view we render
-	seen   map[ssa.Value]bool
-	depth  int
-	inline bool                      // render calls of small pure helpers by their body
-	subst  map[*ssa.Parameter]string // parameter renderings while inlining
-	ilevel int
-	phiSub map[*ssa.Phi]ssa.Value // phis fixed to one incoming value (XsAt)
+	e       *Eng
+	fn      *ssa.Function // function from whose point of view we render
+	seen    map[ssa.Value]bool
+	depth   int
+	inline  bool                      // render calls of small pure helpers by their body
+	subst   map[*ssa.Parameter]string // parameter renderings while inlining
+	ilevel  int
+	phiSub  map[*ssa.Phi]ssa.Value       // phis fixed to one incoming value (XsAt)
 	boolFix func(ssa.Value) (bool, bool) // conditions decided by the assumptions under which v is read
 }
 
